@@ -66,6 +66,7 @@ fn main() {
         let r = guarded(|| match kind {
             "metablock_verify" => c04::run(&pool, sc),
             "verify" => verify::run(&pool, sc),
+            "verify_sequence" => verify::run_sequence(&pool, sc),
             "parse_datetime" => datetime::run(sc),
             "pae" => pae::run(sc),
             "rules" => rules::run(sc),
